@@ -267,7 +267,8 @@ impl World {
             }
             "add_native_decimals" => {
                 let denom = s(&st["denom"]);
-                self.app.execute_contract(sender, self.factory.clone(), &FactoryExecuteMsg::AddNativeTokenDecimals { denom, decimals: st["decimals"].as_u64().unwrap() as u8 }, &[]).map_err(|e| format!("{:#}", e))?;
+                let funds = st.get("funds").map(Self::funds_of).unwrap_or_default();
+                self.app.execute_contract(sender, self.factory.clone(), &FactoryExecuteMsg::AddNativeTokenDecimals { denom, decimals: st["decimals"].as_u64().unwrap() as u8 }, &funds).map_err(|e| format!("{:#}", e))?;
                 Ok(json!({}))
             }
             "query_native_decimals" => {
